@@ -19,6 +19,7 @@ import (
 	"strconv"
 	"strings"
 	"sync/atomic"
+	"syscall"
 	"time"
 
 	"google.golang.org/grpc"
@@ -79,6 +80,9 @@ func (c cfgSpec) label() string {
 	}
 	if c.Chain != nil {
 		hist = "/" + c.Chain.id() + map[bool]string{true: " outcome " + c.Chain.shape() + " in force:"}[len(c.Chain.Applied) > 0]
+		if len(c.Declared) > 0 {
+			hist += fmt.Sprintf(" (lists %v declare a member without a resolvable value)", c.Declared)
+		}
 	}
 	return fmt.Sprintf("%s/%s/%s%s g=%v a=%v b=%v%s adm=%v", c.Alpha, c.Deploy, c.Src, hist, c.Global, c.A, c.B,
 		func() string {
@@ -222,6 +226,9 @@ var seededIDs = []string{"c11-qa", "c11-qb", "c11-la", "c11-lb", "c11-da", "c11-
 type world struct {
 	spec    cfgSpec
 	decided bool // spec.Refused is authoritative (replay/recheck, or after the first boot)
+	// redecide (replay of a chain world on another tree): when the reloads of the history come out differently than
+	// recorded, the table in force is computed anew from the outcomes of THIS tree
+	redecide bool
 	slot    int
 	dir     string
 	ad      addrs
@@ -239,7 +246,7 @@ type world struct {
 	primersPassed, primersRefused int
 	buf                           []byte     // scratch of dump/changed
 	trail                         []caseSpec // rows sent since the last boot (trail_test.go)
-	srcHolds                      map[string]string // chain_test.go: current content of the world's token sources
+	src                           *chainSources // chain_test.go: the token sources of the current boot
 }
 
 func newWorld(spec cfgSpec, slot int, dir string) *world {
@@ -255,6 +262,7 @@ func (w *world) shutdown() {
 		w.app.Shutdown()
 		w.app = nil
 	}
+	w.dropChainSources()
 }
 
 // fresh guarantees the canonical seeded state: a new store and a new boot
@@ -451,11 +459,8 @@ func (w *world) dumpInto(b []byte) []byte {
 		num("\nattempts=", int64(len(at.Items)))
 	}
 	if w.app != nil {
-		file, _ := os.ReadFile(w.app.ConfigPath)
-		b = append(b, "\nconfig="...)
-		b = strconv.AppendInt(b, int64(len(file)), 10)
-		b = append(b, ':')
-		b = append(b, file...)
+		b = append(b, "\nconfig:"...)
+		b = appendFile(b, w.app.ConfigPath)
 		for _, rt := range w.app.Running.Routes {
 			str("\nroute ", rt.Path)
 			str(" app=", rt.Application)
@@ -463,6 +468,40 @@ func (w *world) dumpInto(b []byte) []byte {
 		}
 	}
 	return b
+}
+
+// appendFile appends the content of the file (nothing when it cannot be read) and its length. Plain system calls
+// into the caller's buffer: this runs after every row, and os.ReadFile's *os.File (allocation, finalizer, fstat)
+// was an eighth of the whole run.
+func appendFile(b []byte, path string) []byte {
+	var fd int
+	var err error
+	for {
+		fd, err = syscall.Open(path, syscall.O_RDONLY|syscall.O_CLOEXEC, 0)
+		if err != syscall.EINTR {
+			break
+		}
+	}
+	if err != nil {
+		return append(b, "|unreadable"...)
+	}
+	start := len(b)
+	for {
+		if cap(b)-len(b) < 4096 {
+			b = append(b, make([]byte, 8192)...)[:len(b)]
+		}
+		n, err := syscall.Read(fd, b[len(b):cap(b)])
+		if err == syscall.EINTR {
+			continue
+		}
+		if err != nil || n <= 0 {
+			break
+		}
+		b = b[:len(b)+n]
+	}
+	syscall.Close(fd)
+	b = append(b, "|len="...)
+	return strconv.AppendInt(b, int64(len(b)-start-5), 10)
 }
 
 // ---- requests --------------------------------------------------------------
